@@ -1,6 +1,7 @@
 package isaacdatabase
 
 import (
+	"bytes"
 	"context"
 	"math"
 
@@ -195,9 +196,16 @@ func (db *LeveldbPermanent) State(key string) (st base.State, found bool, _ erro
 		return i, j, nil
 	}
 
-	pst, err := db.st()
-	if err != nil {
-		return nil, false, err
+	// NOTE the read lock is kept until the state is cached; MergeTempDatabase,
+	// which keeps the write lock, can not update and purge the same state
+	// between the read from the storage and the update of cache. If not, old
+	// state can be remained in cache.
+	db.RLock()
+	defer db.RUnlock()
+
+	pst := db.pst
+	if pst == nil {
+		return nil, false, storage.ErrClosed.WithStack()
 	}
 
 	switch b, found, err := pst.Get(leveldbStateKey(key)); {
@@ -364,7 +372,20 @@ func (db *LeveldbPermanent) mergeTempDatabaseFromLeveldb(ctx context.Context, te
 	batch := pst.NewBatch()
 	defer batch.Reset()
 
+	// NOTE the block is visible in the permanent database after restart by
+	// its blockmap (and suffrage proof); they are written after all the
+	// others are written. If merging is stopped before, the temp database
+	// will be merged again.
+	lastbatch := pst.NewBatch()
+	defer lastbatch.Reset()
+
 	if err := tpst.Iter(nil, func(k, v []byte) (bool, error) {
+		if isLastKeyOfMergeTempDatabase(k) {
+			lastbatch.Put(k, v)
+
+			return true, nil
+		}
+
 		if batch.Len() == db.batchlimit {
 			b := batch
 
@@ -398,6 +419,12 @@ func (db *LeveldbPermanent) mergeTempDatabaseFromLeveldb(ctx context.Context, te
 		return e.Wrap(err)
 	}
 
+	if lastbatch.Len() > 0 {
+		if err := pst.Batch(lastbatch, nil); err != nil {
+			return e.Wrap(err)
+		}
+	}
+
 	_ = db.updateLast(
 		temp.enc.Hint().String(),
 		temp.mp, temp.mpmeta, temp.mpbody,
@@ -419,6 +446,12 @@ func (db *LeveldbPermanent) mergeTempDatabaseFromLeveldb(ctx context.Context, te
 	db.Log().Info().Interface("blockmap", temp.mp).Msg("new block merged")
 
 	return nil
+}
+
+func isLastKeyOfMergeTempDatabase(k []byte) bool {
+	return bytes.HasPrefix(k, leveldbKeyPrefixBlockMap[:]) ||
+		bytes.HasPrefix(k, leveldbKeySuffrageProof[:]) ||
+		bytes.HasPrefix(k, leveldbKeySuffrageProofByBlockHeight[:])
 }
 
 func (db *LeveldbPermanent) loadLastBlockMap() error {
